@@ -521,6 +521,65 @@ def gen_c09(ctx: Ctx, n: int):
     return jobs
 
 
+def check_c09_real(ctx: Ctx, job):
+    """REAL worker processes (thorough tier): the dataset SIGKILLs its own worker process while producing a
+    chosen item; the consumer must see a prefix of the reference and then RuntimeError within a wall-clock bound."""
+    import time as _t
+    cfg = dict(job["cfg"])
+    cfg["real_mp"] = True
+    ref_cfg = {k: v for k, v in cfg.items() if k != "kill_items"}
+    with vsched.Session(job["seed"]) as s:
+        loader = sdl.build(ref_cfg)
+        ref = sdl.run_epochs(loader, 1, None)[0]
+        del loader
+        gc.collect()
+        loader = sdl.build(cfg)
+        got = []
+        t0 = _t.time()
+        it = iter(loader)
+        while len(got) < len(ref) + 2:
+            t1 = _t.time()
+            o = sdl.take(it, None)
+            got.append(o)
+            if o[0] != "item":
+                lat = _t.time() - t1
+                break
+            if _t.time() - t0 > 60:
+                got.append(("hang", "wall clock"))
+                break
+        del loader, it
+        gc.collect()
+    ctx.case("ko_c09_real", cfg, True)
+    items = [o for o in got if o[0] == "item"]
+    if items != ref[:len(items)]:
+        ctx.fail("C09:wrong_data_real", job, f"real processes: delivered {items[:4]} is not a prefix of {ref[:4]}")
+    elif got[-1][0] == "hang":
+        ctx.fail("C09:hang_real", job, "real processes: next() did not return within 60 s after the worker killed itself")
+    elif got[-1][0] == "stop" and len(items) < len(ref) - 1:
+        ctx.fail("C09:early_stop_real", job, f"real processes: clean end of epoch after {len(items)} of {len(ref)-1} batches")
+    elif got[-1][0] == "error" and lat > 20:
+        ctx.fail("C09:slow_detection_real", job, f"real processes: death reported after {lat:.1f} s")
+
+
+def gen_c09_real(ctx: Ctx, n: int):
+    jobs = []
+    for i in range(n):
+        cfg = sdl.gen_cfg(ctx.rng, kinds=["map", "iter_ds_state", "iter_it_state"], allow_shuffle=False)
+        cfg["W"] = ctx.rng.choice([1, 2, 3])
+        cfg["pf"] = ctx.rng.choice([1, 2])
+        cfg["persistent"] = False
+        if sdl.is_iter(cfg):
+            cfg["sizes"] = [ctx.rng.randrange(2, 7) for _ in range(cfg["W"])]
+            items = [1000 * w + j for w, sz in enumerate(cfg["sizes"]) for j in range(sz)]
+        else:
+            cfg["n"] = ctx.rng.randrange(4, 12)
+            cfg["sampler"] = "seq"
+            items = list(range(cfg["n"]))
+        cfg["kill_items"] = [ctx.rng.choice(items)]
+        jobs.append({"cfg": cfg, "seed": ctx.rng.randrange(1 << 30)})
+    return jobs
+
+
 # ------------------------------------------------------------------------------------------------ C16
 
 
